@@ -82,12 +82,13 @@ EncElem(t, v, ns, name, tns, poly) ==
   ELSE \* wrapped array
        << S(ns, name) >> \o EncItems(t.of, v[2], ItemNs(t, tns), ItemName(t), tns, poly, 1) \o << E >>
 
-\* ---- messages.  c: [tns, method, style, args: <<[n, t, min, max]>>, vals, rets: <<t>>, rvals, poly]
+\* ---- messages.  c: [tns, method, style, args: <<[n, t, min, max]>>, vals, reqvals, rets: <<t>>, rvals, poly]
+\* (reqvals = vals with the leaves spelled the way the request spells them)
 ArgT(c)  == [k |-> "obj", name |-> c.method, ns |-> c.tns, hasbase |-> FALSE, fields |-> c.args]
 Request(c) ==
   IF c.style = "bare"          \* the single argument IS the message
-    THEN EncElem(c.args[1].t, c.vals[1], c.tns, c.method, c.tns, c.poly)
-    ELSE << S(c.tns, c.method) >> \o EncFields(ArgT(c), c.args, c.vals, c.tns, c.poly, 1) \o << E >>
+    THEN EncElem(c.args[1].t, c.reqvals[1], c.tns, c.method, c.tns, c.poly)
+    ELSE << S(c.tns, c.method) >> \o EncFields(ArgT(c), c.args, c.reqvals, c.tns, c.poly, 1) \o << E >>
 ResultName(c, i) == IF Len(c.rets) = 1 THEN c.method \o "Result" ELSE c.method \o "Result" \o ToString(i - 1)
 RetFields(c) == [i \in 1..Len(c.rets) |-> [n |-> ResultName(c, i), t |-> c.rets[i], min |-> c.rmin[i], max |-> c.rmax[i]]]
 RetT(c) == [k |-> "obj", name |-> c.method \o "Response", ns |-> c.tns, hasbase |-> FALSE, fields |-> RetFields(c)]
@@ -96,10 +97,22 @@ Response(c) ==
     THEN EncElem(c.rets[1], c.rvals[1], c.tns, c.method \o "Response", c.tns, c.poly)
     ELSE << S(c.tns, c.method \o "Response") >> \o EncFields(RetT(c), RetFields(c), c.rvals, c.tns, c.poly, 1) \o << E >>
 
-\* ---- SOAP: Envelope / Body around the message (headers: not modelled here)
-Soap(env, body) == << S(env, "Envelope"), S(env, "Body") >> \o body \o << E, E >>
+\* ---- SOAP: Envelope [Header] Body around the message.  Declared headers are written in
+\* declaration order, each as an element named after its class in the class' namespace; a
+\* header without a value is skipped; no header with a value => no Header element
+\* (a response whose header LIST is set writes a header without a value as an explicit nil element -
+\* that is what the serializer does with a None in ctx.out_header; a request simply leaves it out)
+RECURSIVE HdrToks(_, _, _, _, _, _)
+HdrToks(hts, hvals, tns, poly, explicitnil, k) ==
+  IF k > Len(hts) THEN <<>>
+  ELSE (IF hvals[k] = Nil /\ ~explicitnil THEN <<>> ELSE EncElem(hts[k], hvals[k], hts[k].ns, hts[k].name, tns, poly))
+       \o HdrToks(hts, hvals, tns, poly, explicitnil, k + 1)
+Soap(env, hdr, body) == << S(env, "Envelope") >> \o (IF hdr = <<>> THEN <<>> ELSE << S(env, "Header") >> \o hdr \o << E >>)
+                        \o << S(env, "Body") >> \o body \o << E, E >>
 Env(fam) == IF fam = "soap11" THEN "http://schemas.xmlsoap.org/soap/envelope/" ELSE "http://www.w3.org/2003/05/soap-envelope"
-Wrap(fam, body) == IF fam = "xml" THEN body ELSE Soap(Env(fam), body)
+Wrap(fam, hdr, body) == IF fam = "xml" THEN body ELSE Soap(Env(fam), hdr, body)
+ReqHdr(c)  == HdrToks(c.inh, c.inhvals, c.tns, c.poly, FALSE, 1)
+RespHdr(c) == HdrToks(c.outh, c.outhvals, c.tns, c.poly, TRUE, 1)
 
 \* ---- the equality the properties state: what XML cannot distinguish is identified
 RECURSIVE Norm(_, _)
